@@ -122,9 +122,189 @@ func gen(seed uint64, n int, path string) {
 			}
 			emit("fill", strings.Join(ks, ":"), rs...)
 		}
+		genExt(rng, i, rs, emit, func(op, arg string) {
+			fmt.Fprintf(w, "c%d\t%s\t%s\n", id, op, arg)
+			id++
+		})
+	}
+	// the 32-bit witness: an stco (then co64) track whose kept payload ends just under 4 GiB, mdat before moov
+	big := &tbl.Raw{SttsC: []uint32{3}, SttsD: []uint32{1000}, StscMode: 'A', Stsc: [][3]uint32{{1, 1, 1}}, Number: 3,
+		Sizes: []uint32{4294960000, 500, 100}, OffKind: 'S', Offs: []uint64{0, 4294960000, 4294960500}, HasStss: true, Stss: []uint32{1, 3}}
+	emit("virt", "1500:1:8:1:8000:1000:4294960600:1:1000", big)
+	if n > 1000 {
+		b2 := big.Clone()
+		b2.OffKind = 'C'
+		emit("virt", "1500:1:16:2:8000:1000:4294960600:1:1000", b2)
+		b3 := big.Clone()
+		b3.Sizes[0] = 4294950000
+		b3.Offs = []uint64{0, 4294950000, 4294950500}
+		emit("virt", "1500:1:8:0:0:1000:4294950600:1:1000", b3)
 	}
 	w.Flush()
 	fh.Close()
+}
+
+// genExt: cases for updateChunkOffsets (shift), the duration arithmetic of writeUptoMdat (hdr), writeMdat (mdat) and
+// cropMP4 on a virtual file (virt). rs = 1-3 tracks interleaved in one mdat (absolute offsets).
+func genExt(rng *hx.Rng, i int, rs []*tbl.Raw, emit func(op, arg string, rs ...*tbl.Raw), emit0 func(op, arg string)) {
+	minOff := rs[0].Offs[0]
+	for _, r := range rs {
+		for _, o := range r.Offs {
+			if o < minOff {
+				minOff = o
+			}
+		}
+	}
+	// shift: the offsets as left by updateStco/updateCo64 (>= firstOffset), non-mdat boxes of 24..6000 bytes, 8/16-byte input header
+	for j := 0; j < 2; j++ {
+		emit("shift", fmt.Sprintf("%d:%d:%d", rng.Range(24, 6000), minOff, rng.Pick(8, 16)), rs...)
+	}
+	// near the 32-bit limit: offsets moved up so that some new offsets cross 2^32 (stco: error, co64: fine)
+	hi := make([]*tbl.Raw, len(rs))
+	up := uint64(1)<<32 - uint64(rng.Range(1, 3000)) - rs[0].Offs[len(rs[0].Offs)-1]
+	for t, r := range rs {
+		hi[t] = r.Clone()
+		for c := range hi[t].Offs {
+			hi[t].Offs[c] += up
+			if hi[t].OffKind == 'S' && hi[t].Offs[c] >= 1<<32 {
+				hi[t].Offs[c] = 1<<32 - 1
+			}
+		}
+	}
+	emit("shift", fmt.Sprintf("%d:%d:8", rng.Range(24, 6000), minOff+up), hi...)
+	if i%4 == 0 { // malformed: firstOffset above the offsets / sizes near 2^63, 2^64
+		emit("shift", fmt.Sprintf("%d:%d:8", rng.Range(24, 6000), minOff+uint64(rng.Range(1, 50))), rs...)
+		emit("shift", fmt.Sprintf("%d:%d:16", uint64(1)<<63-uint64(rng.Range(0, 9)), minOff), rs...)
+		emit("shift", fmt.Sprintf("%d:%d:8", ^uint64(0)-uint64(rng.Range(0, 20)), minOff), rs...)
+	}
+	// hdr
+	for j := 0; j < 3; j++ {
+		ets := uint64(rng.Pick(1000, 600, 24, 90000, 48000, 12800))
+		mvts := uint64(rng.Pick(1000, 600, 90000))
+		et := rng.U64() % (ets * 20)
+		nd := et * mvts / ets
+		mv := nd + uint64(rng.Intn(2000))
+		shortMv := rng.Intn(10) == 0 // an mvhd duration below the track durations (non-conforming input)
+		var tks []string
+		nt := rng.Range(1, 3)
+		for t := 0; t < nt; t++ {
+			tk := nd + uint64(rng.Intn(1500))
+			if rng.Intn(12) == 0 && nd > 0 {
+				tk = nd - 1 - uint64(rng.Intn(int(nd%100+1)))%nd // shorter than the new duration: the tool refuses
+			}
+			if tk > mv && rng.Intn(8) > 0 {
+				mv = tk
+			}
+			el := "-"
+			if rng.Intn(2) == 0 {
+				var gs []string
+				for g := rng.Range(1, 2); g > 0; g-- {
+					var es []string
+					for e := rng.Range(0, 3); e > 0; e-- {
+						es = append(es, fmt.Sprint(uint64(rng.Intn(3))*(tk-nd)+uint64(rng.Intn(int(tk%3000+2)))))
+					}
+					gs = append(gs, strings.Join(es, ","))
+				}
+				el = strings.Join(gs, "|")
+			}
+			tks = append(tks, fmt.Sprintf("%d;%d;%s", tk, rng.U64()%100000, el))
+		}
+		if shortMv {
+			mv = rng.U64() % (nd + 1)
+		}
+		if i%16 == 5 && j == 0 {
+			ets = 0 // malformed: division by zero
+		}
+		if i%16 == 6 && j == 0 {
+			et = ^uint64(0) - uint64(rng.Intn(1000)) // malformed: the product wraps
+		}
+		emit0("hdr", fmt.Sprintf("%d:%d:%d:%d:%s", et, ets, mvts, mv, strings.Join(tks, ":")))
+	}
+	// mdat
+	for j := 0; j < 2; j++ {
+		hdr := rng.Pick(8, 16)
+		start := rng.Range(0, 40)
+		pay := rng.Range(1, 120)
+		flen := start + hdr + pay + rng.Range(0, 30)
+		ps := start + hdr
+		var rgs []string
+		pos := ps
+		for k := rng.Range(0, 4); k > 0 && pos < ps+pay; k-- {
+			s := pos + rng.Intn(3)*rng.Intn(10)
+			if s >= ps+pay {
+				break
+			}
+			e := s + rng.Intn(ps+pay-s)
+			rgs = append(rgs, fmt.Sprintf("%d-%d", s, e))
+			pos = e + 1
+		}
+		lazy := 1
+		if rng.Intn(4) == 0 {
+			lazy = 0
+		}
+		if i%8 == 3 && j == 0 { // malformed: a range beyond the payload / the file, an inverted range, an empty lazy payload
+			switch rng.Intn(4) {
+			case 0:
+				rgs = append(rgs, fmt.Sprintf("%d-%d", ps+pay-1, flen+rng.Range(0, 5)))
+			case 1:
+				rgs = append(rgs, fmt.Sprintf("%d-%d", ps+pay+1, ps+pay-1))
+			case 2:
+				rgs = append(rgs, fmt.Sprintf("%d-%d", start, ps+1))
+			case 3:
+				pay = 0
+			}
+		}
+		r := strings.Join(rgs, ",")
+		if r == "" {
+			r = "-"
+		}
+		emit0("mdat", fmt.Sprintf("%d:%d:%d:%d:%d:%s", flen+func() int {
+			if pay == 0 {
+				return 1
+			}
+			return 0
+		}(), start, hdr, pay, lazy, r))
+	}
+	// virt: the same tracks with payload-relative offsets
+	rel := make([]*tbl.Raw, len(rs))
+	var payLen uint64
+	for t, r := range rs {
+		rel[t] = r.Clone()
+		for c := range rel[t].Offs {
+			rel[t].Offs[c] -= minOff
+		}
+		x := tbl.Expand(rel[t])
+		for n := range x.OffsetOf {
+			if e := x.OffsetOf[n] + uint64(x.Size[n]); e > payLen {
+				payLen = e
+			}
+		}
+	}
+	x0 := tbl.Expand(rel[0])
+	ts0 := rng.Pick(1000, 600, 24, 90000, 12800)
+	durMs := x0.Total * 1000 / uint64(ts0)
+	for j := 0; j < 3; j++ {
+		tss := []string{fmt.Sprint(ts0)}
+		for t := 1; t < len(rel); t++ {
+			xt := tbl.Expand(rel[t])
+			ts := uint64(1000)
+			if x0.Total > 0 {
+				ts = xt.Total * uint64(ts0) / x0.Total * uint64(rng.Range(5, 8)) / 8
+			}
+			if ts < 1 || rng.Intn(5) == 0 {
+				ts = uint64(rng.Pick(1000, 600, 48000))
+			}
+			tss = append(tss, fmt.Sprint(ts))
+		}
+		ms := 1 + rng.U64()%(durMs+2)
+		between := rng.Intn(4)
+		pad := 0
+		if between > 0 {
+			pad = rng.Range(0, 40)
+		}
+		emit("virt", fmt.Sprintf("%d:%d:%d:%d:%d:%d:%d:0:%s", ms, rng.Intn(2), rng.Pick(8, 16), between, pad,
+			rng.Pick(1000, 600, 90000), payLen+uint64(rng.Intn(3)), strings.Join(tss, ",")), rel...)
+	}
 }
 
 // ---------------------------------------------------------------- join
